@@ -45,6 +45,8 @@ TEXT = {
     "word": {"x64-intel": ".quad {0}+8", "x64-att": ".quad {0}+8", "ia32": ".long {0}+8", "arm64": ".quad {0}+8"},
     "zero": {"*": ".zero 3"},
     "string": {"*": '.string "hi"'},
+    "ascii": {"*": '.ascii "abc"'},
+    "nul": {"*": '.ascii "\\0"'},
     "uleb": {"*": ".uleb128 300"},
 }
 MNEMONIC = {"o": {"mov", "add"}, "o2": {"xor", "mov"}, "jmp": {"jmp", "b"}, "jcc": {"jne", "b.ne"}, "call": {"call", "bl"},
@@ -53,8 +55,9 @@ MNEMONIC = {"o": {"mov", "add"}, "o2": {"xor", "mov"}, "jmp": {"jmp", "b"}, "jcc
 TRANSFERS = ("jmp", "jcc", "call", "ret", "ijmp", "icall")
 CHUNKS = {"string": 2}  # .string appends the characters and the terminating NUL separately
 CODE = ("o", "o2", "lea", "ripimm", "ripimm8") + TRANSFERS
-DATA = ("byte", "word", "zero", "string", "uleb")
-TYPED = ("string", "uleb")
+DATA = ("byte", "word", "zero", "string", "uleb", "ascii", "nul")
+TYPED = ("string", "uleb", "ascii", "nul")
+BLOCK_TYPE = {"string": "string", "ascii": "ascii", "nul": "ascii", "uleb": "uleb128"}
 
 
 def tok(kind, arg=None):
@@ -144,14 +147,23 @@ def model(prog, chunk_lens, executable, trivially_unreachable, module_symbols):
             continue
         if kind == "raw":
             continue
-        if kind in TYPED:
-            # a value with an encoding sits in a block of its own: split (no fallthrough) before and after it
-            falls[len(raw) - 1] = False
-            new_block()
         n = 0
         for _ in range(CHUNKS.get(kind, 1)):
             n = n + chunk_lens[ci]
             ci += 1
+        if kind == "nul" and not cur["toks"] and len(raw) >= 2 and raw[-2].get("type") == "ascii":
+            # a lone NUL right behind an ASCII block terminates it: same block, now a string; the (empty) current block moves on
+            raw[-2]["toks"].append((kind, arg, pos, n))
+            raw[-2]["len"] = raw[-2]["len"] + n
+            raw[-2]["type"] = "string"
+            pos = pos + n
+            cur["start"] = pos
+            continue
+        if kind in TYPED:
+            # a value with an encoding sits in a block of its own: split (no fallthrough) before and after it
+            falls[len(raw) - 1] = False
+            new_block()
+            cur["type"] = BLOCK_TYPE[kind]
         cur["toks"].append((kind, arg, pos, n))
         cur["len"] = cur["len"] + n
         pos = pos + n
@@ -183,7 +195,8 @@ def model(prog, chunk_lens, executable, trivially_unreachable, module_symbols):
             carry_labels += b["labels"]
             carry_idx.append(i)
             continue
-        fb = {"start": b["start"], "size": b["len"], "labels": carry_labels + b["labels"], "toks": b["toks"], "raw": carry_idx + [i]}
+        fb = {"start": b["start"], "size": b["len"], "labels": carry_labels + b["labels"], "toks": b["toks"], "raw": carry_idx + [i],
+              "type": b.get("type")}
         for j in fb["raw"]:
             remap[j] = len(final)
         final.append(fb)
@@ -294,6 +307,10 @@ def h_assemble(eng, target, prog, pie, trivially_unreachable, split_at=None):
         want_cls = gtirb.CodeBlock if fb["kind"] == "code" else gtirb.DataBlock
         eng.check(type(b) is want_cls, "C12 block at %s is a %s, the text makes it %s" % (fb["labels"], type(b).__name__, fb["kind"]),
                   labels=str(fb["labels"]))
+        got_type = sect.block_types.get(b)
+        got_type = getattr(got_type, "value", got_type)
+        want_type = fb.get("type") if fb["kind"] == "data" else None
+        eng.check(got_type == want_type, "C12/C13 block at %s carries the encoding %r, the text gives it %r" % (fb["labels"], got_type, want_type))
     has_trailing = len(blocks) > len(nonempty)
     # ---- labels -----------------------------------------------------------------------------------
     local = {s.name: s for s in res.symbols}
@@ -434,6 +451,16 @@ def h_symbols(eng, target, case):
         es = [e for e in res.text_section.symbolic_expressions.values()]
         nos = [e.symbol for e in es if e.symbol.name == "nosuch"]
         eng.check(len(nos) == 2 and nos[0] is nos[1], "C13 two references to one unknown name did not share one symbol")
+    elif case == "undef_allowed_temp":
+        # an unknown temporary-looking name: still one proxy-backed symbol per name, shared by all references and listed
+        res = run_prog([tok("call", ".Lnosuch"), tok("o"), tok("jmp", ".Lnosuch"), tok("jcc", ".Lnosuch")], allow_undef=True)
+        eng.check(len(res.symbols) == 1, "C13 one unknown temporary name created symbols %s" % sorted(s.name for s in res.symbols))
+        es = [e for e in res.text_section.symbolic_expressions.values()]
+        eng.check(len(es) == 3 and all(e.symbol is es[0].symbol for e in es),
+                  "C13 references to one unknown temporary name did not share one symbol")
+        eng.check(all(any(e.symbol is s2 for s2 in res.symbols) for e in es), "C13 an operand refers to a symbol missing from the result")
+        for s2 in res.symbols:
+            eng.check(isinstance(s2.referent, gtirb.ProxyBlock) and s2.referent in res.proxies, "C13 undefined symbol is not proxy-backed")
     elif case == "module_binds":
         res = run_prog([tok("call", "func"), tok("o"), tok("lea", "obj"), tok("jmp", "ext"), tok("o"), tok("jmp", ".L_mod")])
         eng.check(not res.symbols, "C13 names of module symbols created new symbols: %s" % [s.name for s in res.symbols])
@@ -524,6 +551,7 @@ PROGRAMS = {
     "typed-mid": [tok("o"), tok("string"), tok("label", "x"), tok("o2"), tok("string"), tok("byte"), tok("o")],
     "typed-after-ret": [tok("o"), tok("ret"), tok("label", "s"), tok("string"), tok("string"), tok("label", "t"), tok("byte")],
     "rip-imm": [tok("ripimm", "obj"), tok("o"), tok("ripimm8", "ext"), tok("ripimm", "ext"), tok("ripimm8", "obj"), tok("ret")],
+    "ascii-nul": [tok("o"), tok("ret"), tok("ascii"), tok("nul"), tok("label", "s2"), tok("ascii"), tok("byte"), tok("nul"), tok("string")],
     "temp": [tok("label", ".Lt"), tok("o"), tok("jcc", ".Lt"), tok("jmp", ".Lu"), tok("label", ".Lu"), tok("o")],
 }
 
@@ -606,10 +634,10 @@ def make_check_C13(tier):
     chk.install_shims = install
     chk.classify_exception = classify
     for target in (["x64-intel", "arm64"] if tier == "quick" else list(TARGETS)):
-        for case in ("undef_refused", "undef_allowed", "module_binds", "redefine_global", "redefine_temp", "redefine_own", "redefine_set",
+        for case in ("undef_refused", "undef_allowed", "undef_allowed_temp", "module_binds", "redefine_global", "redefine_temp", "redefine_own", "redefine_set",
                      "temp_suffix", "chunked"):
             chk.add("symbols/%s/%s" % (target, case), h_symbols, params=dict(target=target, case=case), timeout=900)
-        for pname in ("jcc-back", "temp", "data-after-ret", "calls"):
+        for pname in ("jcc-back", "temp", "data-after-ret", "calls", "ascii-nul"):
             prog = PROGRAMS[pname]
             for cut in range(1, len(prog)):
                 # a chunk must not refer to a label defined in a later chunk
